@@ -192,6 +192,15 @@ fn slice_main(args: &Args) -> i32 {
         r.stats.merge(&outcome.stats);
         if let Some(v) = outcome.violation { if r.violations.len() < 16 { r.violations.push((i, scn, v)); } }
         i += args.stride.max(1);
+        // "In one process" starts from a new process for every history of C20: the library's name counter is
+        // process-wide state, and a history that begins with it at zero is also what a replay sees.
+        if prop == "C20" && i < count {
+            let mut o = out.lock();
+            let _ = writeln!(o, "R {}", serde_json::to_string(&r).unwrap());
+            let _ = writeln!(o, "N {}", i);
+            let _ = o.flush();
+            return 0;
+        }
         if r.scenarios >= 20_000 || since.elapsed().as_secs() >= 5 {
             { let mut o = out.lock(); let _ = writeln!(o, "R {}", serde_json::to_string(&r).unwrap()); let _ = o.flush(); }
             r = WorkerResult::default();
@@ -243,6 +252,7 @@ fn supervise_slice(args: &Args, prop: &str, count: u64, slice: u64, stride: u64,
         }) };
         let mut in_flight: Option<u64> = None;
         let mut ended = false;
+        let mut planned_next: Option<u64> = None;
         for line in stdout.lines() {
             let line = match line { Ok(l) => l, Err(_) => break };
             beat.fetch_add(1, Ordering::Relaxed);
@@ -254,12 +264,15 @@ fn supervise_slice(args: &Args, prop: &str, count: u64, slice: u64, stride: u64,
                     total.violations.extend(r.violations); total.log.extend(r.log); total.samples.extend(r.samples);
                 }
             } else if line.trim() == "E" { ended = true; }
+            else if let Some(rest) = line.strip_prefix("N ") { planned_next = rest.trim().parse().ok(); }
         }
         let status = child.wait();
         done.store(true, Ordering::Relaxed);
         let _ = watchdog.join();
         scratch::cleanup_pid(pid);
         if ended { break; }
+        // A planned restart: the slice asked to be continued in a new process.
+        if let Some(n) = planned_next { if !hung.load(Ordering::Relaxed) { next_start = n; continue; } }
         // The slice died while running `in_flight`.
         crashes += 1;
         let index = in_flight.unwrap_or(next_start);
